@@ -387,8 +387,9 @@ static void runOp(const std::vector<std::string> &w)
 		Bytes pin = unhex(w[2] == "null" ? "" : w[2]);
 		unsigned char lab[32];
 		memset(lab, ' ', 32);
+		bool nullLabel = w.size() > 3 && w[3] == "nulllabel";
 		if (w.size() > 3) memcpy(lab, w[3].data(), std::min((size_t)32, w[3].size()));
-		rv = F->C_InitToken(slot, w[2] == "null" ? NULL : dptr(pin), pin.size(), lab);
+		rv = F->C_InitToken(slot, w[2] == "null" ? NULL : dptr(pin), pin.size(), nullLabel ? NULL : lab);
 		rvOut(rv);
 	}
 	else if (op == "open") {
